@@ -53,7 +53,7 @@ let rerror_of_string s : rerror option = match s with
 (* a source returning its last bytes together with the error ("eofdata"/"faildata") delivers the same
    bytes and the same final error as one returning them separately *)
 let mk_src data spec tail =
-  { chunks = (match chunks_of_spec spec data with Some cs -> cs | None -> chunk_by (sizes_of_spec spec (List.length data)) data); tl = (if tail = "fail" || tail = "faildata" then TFail else TEOF) }
+  { chunks = (match chunks_of_spec ~trailing:(tail <> "eofdata" && tail <> "faildata") spec data with Some cs -> cs | None -> chunk_by (sizes_of_spec spec (List.length data)) data); tl = (if tail = "fail" || tail = "faildata" then TFail else TEOF) }
 
 let rec take_n k l = if k <= 0 then [] else match l with [] -> [] | x :: r -> x :: take_n (k-1) r
 
